@@ -163,9 +163,12 @@ impl MatchBlock {
             return_err!(span, "multiple match entries for `{}`", sym);
         }
 
-        // NB: It's legal for multiple regex to produce same terminal.
+        // Each terminal gets exactly one entry (identifiers are already checked by name
+        // resolution; quoted names such as `"a" => "x", "b" => "x"` are only seen here).
         if let MatchMapping::Terminal(user_name) = &user_name {
-            self.match_user_names.insert(user_name.clone());
+            if !self.match_user_names.insert(user_name.clone()) {
+                return_err!(span, "two terminals declared with the name `{}`", user_name);
+            }
         }
 
         self.match_entries.push(MatchEntry {
